@@ -165,6 +165,9 @@ def generic_iterate(interp, it):
         if ent is not None:
             r = interp.call(interp.member_value(owner, ent, it, "__iter__"), [], {})
             return interp.iterate(r)
+    if isinstance(it, SV) or it is None or isinstance(it, (int, float, bool)):
+        # python: iterating a number / None is a TypeError (the repo relies on it: argtest.ofsequence on a scalar)
+        raise SymRaise("TypeError", f"'{type(it).__name__}' object is not iterable")
     raise Unsupported(f"iteration over {type(it).__name__}")
 
 
